@@ -68,3 +68,33 @@ check('C03',
   'rux is rebuilt with sync and container/list replaced by shims and a scheduling point before every visible statement (go build -overlay, generated from the current tree). For every scenario (router shape x 2-3 in-flight requests x sequential history incl. panicking and re-dispatching requests) every interleaving is executed up to a preemption bound iterated 0,1(,2,3): each request must observe exactly what it observes alone, no panic/deadlock/livelock, cache and pool invariants afterwards, no unordered conflicting accesses to the cache list (vector clocks). A cache-seam harness explores 2-3 threads of direct cache operations and checks linearizability against the reference LRU by brute force. Every schedule is replayable and replayed twice before it is reported. The same bodies then run free on 8 goroutines under the Go race detector.',
   'Preemption-bounded (bounds and points per tier are in the evidence); sequentially consistent scheduler; the race clause for memory the shims cannot see rests on the dynamic -race pass, which is not an enumeration.',
   'DESIGN.md 3.2, 5 C03')
+check('C15',
+  'bounded exhaustive enumeration of (named template, value tuple, argument style) with the router itself closing the round trip',
+  'For 14 named templates every value tuple over 19 values that satisfies the variables\' regexes x 3 argument styles x 4 sets of extra query arguments is built with BuildURL; the resulting URL is matched (Match on u.Path) and really requested (a request parsed from u.String() through ServeHTTP) and must reach the same route with exactly those values, extras must appear as query parameters; all sequences of <=3 (4) naming operations over 2 names x 3 naming APIs must leave GetRoute(name) on the most recent route.',
+  'Values containing braces are excluded (Build substitutes in Go map order, which cannot be owned); tuples spelling a path that is not in normal form are skipped because C11 defines those characters away.',
+  'DESIGN.md 5 C15')
+check('C16',
+  'bounded exhaustive enumeration of all 128 controller method sets x registration orders (driven through the exported action map, observed through the debug print) against the documented REST table and the reference resolver',
+  'All 128 subsets of the seven actions (generated controller types) x with/without Uses() x 3 base paths x inside/outside a group; for each, registration is repeated until every permutation of the implemented actions (k<=4; all rotations of two orders beyond) was actually observed as registration order; for every observed order Routes()/NamedRoutes() must equal the documented table and all 9 methods x 8 probe paths must dispatch as the reference resolver says over that table; per-action middleware only for its action; bad controllers rejected.',
+  'Go map iteration order inside Resource is driven via insertion order and confirmed from rux\'s own debug output; an order not observed within 400 draws is reported as a cap (never happened).',
+  'DESIGN.md 5 C16')
+check('C17',
+  'bounded exhaustive enumeration of request paths (raw and percent-encoded token strings) against a real sandbox directory tree with marked outside files',
+  'All paths of <=3 (thorough 4) tokens over 19 traversal tokens after each mount prefix, sent raw+decoded, for StaticDir/StaticFS/StaticFiles/StaticFile x 2 prefixes x both UseEncodedPath settings: no response may carry a marker of a file outside the root or list an outside directory, every 200 body is a file under the root, StaticFiles serves only allowed extensions, StaticFile only its file.',
+  'Relative to the sandbox tree, OS and file system of the run; net/http FileServer is part of the implementation under test.',
+  'DESIGN.md 5 C17')
+check('C18',
+  'exhaustive decision table + bounded exhaustive enumeration of values and of all short byte strings as bodies',
+  'Decision table 9 methods x 14 Content-Types x query present/absent with a different value in every source; round trip of 576 struct values through query/urlencoded/multipart/JSON/XML; ALL byte strings of length <=4 over 14 bytes as body per format (no panic; malformed JSON/XML must give an error); validator on/off against an independent validation of the bound struct.',
+  'Media types containing a canonical subtype only as a substring are outside the alphabet; encoding/json and encoding/xml define malformed; weakest fit for the technique among the properties (value spaces are representative, not complete).',
+  'DESIGN.md 5 C18')
+check('C19',
+  'bounded exhaustive enumeration of helpers x statuses x value alphabets x preset content types and of all Accept lists up to length 3',
+  '11 context helpers x 8 statuses x strings/maps/structs/slices/scalars/unencodable values x preset Content-Type; 11 pkg/render functions x preset types; render.Auto over ALL 1110 Accept lists of <=3 entries from 10 entries: status, documented Content-Type (preset preserved by the renderers), body decodes back, first supported type wins, encoding failures reported as errors not panics.',
+  'Value alphabets are representative; text/html negotiation is modelled as the code\'s no-op.',
+  'DESIGN.md 5 C19')
+check('C20',
+  'exhaustive decision tables for the three gates against independent reference tables',
+  'HTTPBasicAuth: 6 account maps x 20 Authorization values x 3 middleware placements (gate open iff well-formed credentials and no list or matching password; else 401+challenge / 403 and nothing downstream); HTTPMethodOverrideHandler: 10 methods x 13 values x 6 carriers; WrapHTTPHandlers: wrapper lists of length 1..4; WrapHTTPHandler(Func) at every subset of positions of chains n<=4.',
+  'Tables are finite and complete over their alphabets; disagreeing override carriers are executed but not asserted.',
+  'DESIGN.md 5 C20')
